@@ -307,6 +307,7 @@ def main():
     import intrinsics2  # noqa: F401
     import harnesses_text  # noqa: F401  (registers the C15/C19 harnesses)
     import harnesses_pkg  # noqa: F401
+    import harnesses_build  # noqa: F401
     try:
         funcs = mir.parse_mir(open(a.mir).read())
         ctx = Ctx(funcs, Native(a.native), a.seed)
